@@ -47,13 +47,26 @@ Definition ffuel : nat := 700.
 Definition pin_acc (id : Z) : list Z :=
   if id =? 20 then [42] else if id =? 21 then [5; 0] else if id =? 22 then [7; 3] else if id =? 23 then [42]
   else if id =? 24 then [42; 42] else if id =? 25 then [9; 0; 9] else if id =? 26 then [42; 1] else [].
+(* ids 30-35: the arguments object of function (a, b, a) / (a, a).  10.6 step 11.c visits the indices from the last one
+   down and maps a NAME once: an earlier parameter of the same name (when the later one received an argument too) is a
+   plain data property holding its own argument.  otto (cmplCallNodeFunction: indexOfParameterName[index] = name for every
+   index below the argument count) aliases it to the binding as well.  33, 34: controls (last occurrence; later
+   occurrence without an argument) *)
+Definition pin_dup_spec (id : Z) : list Z :=
+  if id =? 30 then [1] else if id =? 31 then [1] else if id =? 32 then [1] else if id =? 33 then [9]
+  else if id =? 34 then [0] else if id =? 35 then [3] else [].
+Definition pin_dup_model (id : Z) : list Z :=
+  if id =? 30 then [3] else if id =? 31 then [2] else if id =? 32 then [9] else if id =? 33 then [9]
+  else if id =? 34 then [0] else if id =? 35 then [9] else [].
 Definition pin_spec (id : Z) : list Z :=
+  if (30 <=? id) && (id <=? 35) then pin_dup_spec id else
   if (20 <=? id) && (id <=? 26) then pin_acc id else
   if (id =? 4) || (id =? 9) || (id =? 10) then [0; 1] else if (id =? 8) then [0; 2]
   else if (1 <=? id) && (id <=? 7) then [1; 0] else [].
 (* otto: every declaration goes through the same createBinding(name, deletable = false) / global property with
    configurable = false, whatever code declares it (cmplVariableDeclaration, cmplFunctionDeclaration) *)
 Definition pin_model (id : Z) : list Z :=
+  if (30 <=? id) && (id <=? 35) then pin_dup_model id else
   if (20 <=? id) && (id <=? 26) then pin_acc id else
   if (id =? 5) then [1; 0]
   else if (id =? 9) || (id =? 10) then [0; 1]
@@ -119,13 +132,17 @@ Definition verdict (c : case) : Z * Z :=
         judge obs_eqb (lg, oc) (out so, project mode oo) (out ss, project mode os)
               (if wf (SBlock p) then 0 else 1)
       end
-  | PinCase id obs => judge (list_eqb Z.eqb) obs (pin_model id) (pin_spec id) 3
+  | PinCase id obs => judge (list_eqb Z.eqb) obs (pin_model id) (pin_spec id) (if 30 <=? id then 4 else 3)
   | FCase p lg oc cv agree =>
       let '(ml, mo, mcv) := Full.run_program_cv ffuel p in
       match mo with
       | FOutOfFuel | FDeclined => declined
       | _ =>
         if fhas_big ml mo || fval_eqb mcv WBig then declined
+        (* the harness stops a run after maxLog = 4000 host calls: a program that the reference semantics gives a longer
+           log is outside what the run can observe (declined, counted); a shorter model log against an overflowing run
+           stays a violation *)
+        else if 4000 <? Z.of_nat (length ml) then declined
         else if negb agree then (3, 9)
         else if fobs_eqb (lg, oc, mcv) (ml, mo, mcv) && negb (fval_eqb cv mcv) && Full.has_jump_top p
              then (1, 2)   (* finding class 2: the value of a statement list is lost when it ends in break/continue *)
